@@ -8,7 +8,7 @@ backslashes, `~`, non-ASCII).  A renderer that follows docs/concepts/filters.md 
 whitespace around operators / after `!` / inside parentheses, minimal parentheses by the documented precedence plus
 redundant ones, regexes unquoted when they contain no reserved character, else single- or double-quoted with the quote
 character and the backslash escaped.
-Oracle: flowfilter.parse(text) succeeds and for each of 36 flows of every type (built from plain specs) plus two
+Oracle: flowfilter.parse(text) succeeds and for each of 42 flows of every type (built from plain specs) plus two
 case-specific flows the verdict equals lib/ref_filter.eval_tree(tree, spec) - an independent evaluator working on the
 spec only.
 """
@@ -22,7 +22,7 @@ LEVEL = "exploration"
 RULE = ("all renderings (2 styles) of every 2-/3-leaf tree over & | juxtaposition with every placement of ! (exhaustive), plus "
         "Hypothesis trees (<=7 atoms, paren nesting <=2) over all 14 unary, 17 regex, ~c and naked-regex atoms with "
         "! & | juxtaposition and redundant parentheses, rendered with varied whitespace (space, tab, CR, LF between tokens, after arguments and around the expression)/parenthesisation/quoting, each "
-        "evaluated on 36 pool flows of all types + 2 case-specific flows; non-trivial = tree has >=2 different "
+        "evaluated on 42 pool flows (incl. HTTP bodies whose Content-Encoding header fits / does not fit the bytes) of all types + 2 case-specific flows; non-trivial = tree has >=2 different "
         "connectives or a parenthesised group; distinct by (tree shape, rendered text)")
 ASSUMPTIONS = [
     "Python `re` is the regex semantics (reference and implementation both use it); binary parts are matched with the "
@@ -37,7 +37,7 @@ TECHNIQUE = "Hypothesis-generated expression trees rendered to text vs. independ
 LEVEL_TEXT = ("generated-input search: random expression trees over the complete operator set with varied rendering, "
               "compared on a fixed pool of flows of every type against an independent evaluator; not exhaustive")
 LEVEL_NOTE = "trusts Python re, the spec->flow builder in lib/ref_filter.py and str(DNSMessage)"
-QUICK_N, THOROUGH_N = 8_000, 500_000
+QUICK_N, THOROUGH_N = 5_000, 500_000
 BUDGET_S = (300, 7200)
 
 # ------------------------------------------------------------------ regex grammar
@@ -189,6 +189,8 @@ def _pool():
                     raise HarnessError("spec url %r != %r" % (rf.spec_url(s), f.request.pretty_url))
                 if s["resp"] is not None and f.response.get_content(strict=False) != s["resp"]["body"]:
                     raise HarnessError("spec body mismatch")
+                if f.request.get_content(strict=False) != s["req_body"]:
+                    raise HarnessError("spec request body mismatch")
         _POOL = (specs, flows)
     return _POOL
 
